@@ -198,8 +198,18 @@ class ChunkIO(RuleBasedStateMachine):
         if sc["encoding"] == "compressed_segmentation" and seed % 2:
             pal = rng.integers(0, hi, size=3, dtype=np.uint64, endpoint=True)
             return pal[rng.integers(0, 3, size=shape)].astype(dt)
-        return rng.integers(0, hi, size=shape, dtype=np.uint64,
-                            endpoint=True).astype(dt)
+        out = rng.integers(0, hi, size=shape, dtype=np.uint64,
+                           endpoint=True).astype(dt)
+        if sc["encoding"] == "raw" and seed % 5 == 2:
+            # voxel values whose bytes start like a compressed container
+            # (gzip / zlib magic numbers) - they are just voxel values
+            magic = [b"\x1f\x8b\x08\x00", b"\x1f\x8b\x08\x08", b"x\x9c\x00\x00",
+                     b"\x1f\x8b\x00\x00"][(seed // 5) % 4]
+            flat = out.reshape(-1).view(np.uint8)
+            flat[:min(4, flat.size)] = np.frombuffer(magic, np.uint8)[
+                :min(4, flat.size)]
+            self.flags.add("magic_number_voxels")
+        return out
 
     def compare(self, sc, cc, got, want, who):
         if not isinstance(got, np.ndarray) or got.shape != want.shape:
